@@ -122,7 +122,7 @@ def _gen_got_message(rnd):
 
 @contract('frontends.tui.controller.Controller.connection_got_new_message')
 def _(c):
-    c.prop('C06', 'C10')
+    c.prop('C06', 'C10', 'C11')     # C11: `list` reads what this records
     c.let('sel', 'self.current_connection is None or connection is self.current_connection')
     c.let('shown', '(self.current_connection is None or connection is self.current_connection) and self.display_matcher.matches(message)')
     c.let('stop', '(self.current_connection is None or connection is self.current_connection) and self.stop_matcher.matches(message)')
